@@ -738,7 +738,9 @@ func ruleDelta(c *Ctx) {
 	for a := range x.atoms {
 		switch rs := rolesIn(a); {
 		case len(rs) == 2:
-			c.und("model", setFill.Decl.Pos(), "condition %s relates the two objects: situations cannot be enumerated independently", a)
+			// what the bookkeeping does for the new object then depends on the previous one (and vice versa): the
+			// independence obligation is violated by construction; the situations cannot be enumerated further
+			c.bad("insertion-independent/relational-condition", setFill.Decl.Pos(), "the bookkeeping tests %s, a condition that relates the previous and the new object: what is done for the new object (which index entries are written) depends on the previous one — an index entry that is kept because the two look alike still points at the previous object, with its fields and deadline, while the primary map holds the new one", a)
 			return
 		case rs[0] == "$prev":
 			x.atoms[strings.ReplaceAll(a, "$prev", "$obj")] = true
